@@ -410,6 +410,10 @@ func checkC11Unbound(c *c11UnboundCase) error {
 	for _, f := range c.BoundFuncs {
 		set = append(set, xsel.WithFunctionNS(f.Space, f.Local, func(xsel.Context, ...xsel.Result) (xsel.Result, error) { return xsel.Number(7), nil }))
 	}
+	if len(c.Events)%2 == 0 {
+		// another query bound these very names a moment ago - for itself
+		pollute(p.root)
+	}
 	r, err := safeExec(p.root, g, set...)
 	st.Eval(1)
 	if pe, ok := err.(*panicError); ok {
